@@ -3,7 +3,7 @@ C25 helper lemmas, part 6: the drain lemma, flags after the healing suffix, and 
 between changes and event groups.
 -/
 import RqModel.Lemmas.Cdc5
-namespace RqModel.Cdc
+namespace RqModel.CdcPipe
 open RqModel.Fifo
 
 /-! ### a leader with a working endpoint empties what it can emit -/
@@ -226,4 +226,4 @@ theorem wfOps_append (last : Nat) (a b : List Op) (ha : wfOps last a)
     | tick => exact ih _ ha
     | restart => exact ih _ ha
 
-end RqModel.Cdc
+end RqModel.CdcPipe
